@@ -756,17 +756,20 @@ func runBubble(t *testing.T, cfg Config, root func(), resp *Result) {
 		res = s.result()
 		if len(res.Leftover) > 0 {
 			// are the leftovers still moving (timer loops)? then the bubble would never end
-			_, g0 := s.leftover()
+			ids0, g0 := s.leftover()
 			time.Sleep(30 * time.Second)
 			synctest.Wait()
-			ids, g1 := s.leftover()
-			moving := len(g0) != len(g1)
-			for i := range g1 {
-				if i < len(g0) && g0[i] != g1[i] {
-					moving = true
+			ids1, g1 := s.leftover()
+			// a task that is still alive after 30 more simulated seconds and has passed gates meanwhile is
+			// looping on timers: the bubble would never end
+			moving := false
+			for i, id := range ids1 {
+				for j, id0 := range ids0 {
+					if taskOf(id) == taskOf(id0) && g1[i] != g0[j] {
+						moving = true
+					}
 				}
 			}
-			_ = ids
 			if moving && cfg.Unclean != nil {
 				cfg.Unclean(res)
 			}
@@ -804,4 +807,11 @@ func StallTotal() time.Duration {
 		return s.stallTime
 	}
 	return 0
+}
+
+func taskOf(idAtSite string) string {
+	if i := strings.Index(idAtSite, "@"); i >= 0 {
+		return idAtSite[:i]
+	}
+	return idAtSite
 }
